@@ -131,8 +131,9 @@ func generateTemplate(description string) (string, []byte, error) {
 	}
 
 	pkgname := strings.ToLower(strings.Replace(strings.Replace(midl.Name, ".", "", -1), "-", "", -1))
-	// A Go keyword cannot name a package, and a package main cannot be imported
-	if token.IsKeyword(pkgname) || pkgname == "main" {
+	// A Go keyword cannot name a package, a package main cannot be imported,
+	// and go build ignores the files of a package documentation
+	if token.IsKeyword(pkgname) || pkgname == "main" || pkgname == "documentation" {
 		pkgname += "_"
 	}
 
